@@ -404,6 +404,13 @@ def run_case(chk, stream, case):
                     if total != expect:
                         fails.append(oracle("C18:event-order", "%s on shape %s (consumers %s): layers saw %s, expected %s"
                                             % (op, slots, {k: v["cons"] for k, v in case["layers"].items() if v["cons"]}, total, expect)))
+    # a stack's properties are its own: what is set on this stack is read back from it and is not visible in another stack of the process
+    other = YowStack((RecLayer,), reversed=False)
+    key = "org.verif.c18.prop"
+    stack.setProp(key, len(slots))
+    if stack.getProp(key) != len(slots) or other.getProp(key, "unset") != "unset":
+        fails.append(oracle("C18:properties-shared-between-stacks", "setProp on one stack: it reads back %r, another stack built without properties reads %r"
+                            % (stack.getProp(key), other.getProp(key, "unset"))))
     # interface lookup by class: the first layer (bottom first, looking into groups) whose class is EXACTLY the one asked for
     flat = [l for sl in slots for l in members(sl)]
     for c, K in sorted(classes.items()):
